@@ -123,7 +123,7 @@ func (w *World) clusterAnchors() *clusterAnchors {
 			}
 		}
 	}
-	if a.leave != nil {
+	if a.leave != nil && false {
 		for _, b := range a.leave.Blocks {
 			for _, in := range b.Instrs {
 				if c := callOf(in); c != nil && c.StaticCallee() != nil && isMethodOf(c.StaticCallee(), a.agentT) && len(c.Args) == 1 {
@@ -139,6 +139,27 @@ func (w *World) clusterAnchors() *clusterAnchors {
 			}
 		}
 	}
+	if a.leave != nil {
+		// the rebuild helper: an Agent method called by the leave handler that clears kinds
+		for _, b := range a.leave.Blocks {
+			for _, in := range b.Instrs {
+				if c := callOf(in); c != nil && c.StaticCallee() != nil && isMethodOf(c.StaticCallee(), a.agentT) {
+					for _, bb := range c.StaticCallee().Blocks {
+						for _, ii := range bb.Instrs {
+							if cc := callOf(ii); cc != nil {
+								if f := cc.StaticCallee(); f != nil && strings.Contains(f.String(), "maps.Clear") && strings.HasSuffix(w.pathOf(cc.Args[0]), ".kinds") {
+									a.rebuild = c.StaticCallee()
+								}
+								if bi, isB := cc.Value.(*ssa.Builtin); isB && bi.Name() == "clear" && strings.HasSuffix(w.pathOf(cc.Args[0]), ".kinds") {
+									a.rebuild = c.StaticCallee()
+								}
+							}
+						}
+					}
+				}
+			}
+		}
+	}
 	chk := func(n string, f *ssa.Function) {
 		if f == nil {
 			a.problems = append(a.problems, n)
@@ -148,7 +169,6 @@ func (w *World) clusterAnchors() *clusterAnchors {
 	chk("join handler (broadcasts MemberJoinEvent)", a.join)
 	chk("leave handler (broadcasts MemberLeaveEvent)", a.leave)
 	chk("members handler", a.handleMembers)
-	chk("rebuild-kinds helper", a.rebuild)
 	chk("bcast helper", a.bcast)
 	chk("activate", a.activate)
 	chk("addActivated", a.addAct)
@@ -311,6 +331,13 @@ func checkC18(w *World, r *Report) {
 		}
 		r.Check(ok, "C18.R2", fname(a.join)+":kinds", "the join handler records every kind of the new member", w.fnPos(a.join), "HasKind stays false for a kind that only the new member offers")
 		// leave rebuilds kinds after the removal
+		if a.rebuild == nil {
+			r.Fail("C18.R2", fname(a.leave)+":rebuild-after-remove", "kinds are rebuilt after the member was removed", w.fnPos(a.leave),
+				"the leave handler calls no helper that recomputes kinds from the remaining members: a kind still offered by another member disappears (or a vanished kind stays)")
+			r.Fail("C18.R2", "rebuildKinds:clear-and-readd", "rebuild clears kinds and re-adds the kinds of every remaining member", w.fnPos(a.leave), "no rebuild helper")
+			goto r3
+		}
+		{
 		lg := w.FG(a.leave)
 		R := w.Nodes(lg, EvCall("Remove", rem), true)
 		B := w.Nodes(lg, EvCall("rebuild", a.rebuild), true)
@@ -360,7 +387,9 @@ func checkC18(w *World, r *Report) {
 			}
 		}
 		r.Check(clr && readd, "C18.R2", fname(a.rebuild)+":clear-and-readd", "rebuild clears kinds and re-adds the kinds of every remaining member", w.fnPos(a.rebuild), "kinds is not recomputed from the whole remaining view")
+		}
 	}
+r3:
 	// R3
 	{
 		mw := map[*ssa.Function]bool{}
@@ -692,6 +721,17 @@ func checkC19(w *World, r *Report) {
 				}
 			}
 		}
+		okLoc := false
+		for _, in := range g.ins {
+			if iff, isIf := in.(*ssa.If); isIf {
+				p := w.pathOf(iff.Cond)
+				if strings.HasPrefix(p, "(call:dyn[") && (strings.HasSuffix(p, ".Host==call:(*actor.Engine).Address(P0.cluster.engine))") || strings.HasSuffix(p, ".Host!=call:(*actor.Engine).Address(P0.cluster.engine))")) {
+					okLoc = true
+				}
+			}
+		}
+		r.Check(okLoc, "C19.R1", fname(a.activate)+":local-test", "the chosen member is activated locally exactly when its Host is the engine's own address", site,
+			"locality is decided against something else than the engine address: with a caller-supplied engine the agent sends the request to itself, times out and returns nil although an actor may be spawned")
 		r.Check(okP, "C19.R1", fname(a.activate)+":placement", "the ActivationRequest{kind,id} goes to the agent of the member returned by the select function over FilterByKind(kind)", site,
 			"the actor is requested on another member than the chosen capable one, or with another kind/id")
 	}
@@ -760,6 +800,17 @@ func checkC19(w *World, r *Report) {
 				}
 			}
 			if nxt == nil || !lg.After(n, setOf(len(lg.ins), lg.idx[nxt])) {
+				okL = false
+			}
+		}
+		{
+			nx := make([]bool, len(lg.ins))
+			for i, in := range lg.ins {
+				if n, isN := in.(*ssa.Next); isN && strings.Contains(w.pathOf(n), "P0.activated") {
+					nx[i] = true
+				}
+			}
+			if !lg.AfterEntry(nx) {
 				okL = false
 			}
 		}
@@ -959,6 +1010,36 @@ func checkC19(w *World, r *Report) {
 			}
 			r.Check(ok1 && ok2, "C19.R4", "Member.PID<->Cluster.Start", "members address each other's agent as cluster/<id>, the id the agent is spawned under", w.fnPos(mp), "notifications are sent to a PID no agent answers to")
 		}
+	}
+	// getActive by kind: the kind of an entry is the first segment of its id
+	{
+		g := w.FG(a.hGetActive)
+		ok := false
+		detail := "no comparison of msg.kind with the first \"/\"-separated segment of the table key (unrecognised idiom)"
+		for _, in := range g.ins {
+			if iff, isIf := in.(*ssa.If); isIf {
+				p := w.pathOf(iff.Cond)
+				if !strings.Contains(p, "P2.kind") {
+					continue
+				}
+				switch {
+				case strings.Contains(p, `strings.Split(next(range(P0.activated))#1,K:"/")[K:0]`), strings.Contains(p, `strings.SplitN(next(range(P0.activated))#1,K:"/",`) && strings.Contains(p, "[K:0]"),
+					strings.Contains(p, `strings.Cut(next(range(P0.activated))#1,K:"/")#0`), strings.Contains(p, `strings.HasPrefix(next(range(P0.activated))#1,(P2.kind+K:"/"))`):
+					ok = true
+				case strings.Contains(p, "len(P2.kind)"):
+				default:
+					detail = "the kind of an entry is computed as " + p
+				}
+			}
+		}
+		r.Check(ok, "C19.R2", fname(a.hGetActive)+":kind-is-first-segment", "GetActiveByKind matches the first segment of kind/id (ids may contain \"/\")", w.fnPos(a.hGetActive), detail)
+		okID := false
+		for _, ci := range w.callsIn(a.hGetActive, EvCall("Respond", w.Method("actor", "Context", "Respond"))) {
+			if w.pathOf(ci.Common().Args[1]) == "P0.activated[P2.id]" {
+				okID = true
+			}
+		}
+		r.Check(okID, "C19.R2", fname(a.hGetActive)+":by-id", "GetActiveByID answers activated[id]", w.fnPos(a.hGetActive), "GetActiveByID is not answered from the activation table")
 	}
 	// R5
 	{
@@ -1199,6 +1280,42 @@ func checkC20(w *World, r *Report) {
 			c := ci.Common()
 			if w.pathOf(c.Args[0]) == "P0.members" && strings.HasPrefix(w.pathOf(c.Args[1]), "P1[") {
 				okAdd = true
+			}
+		}
+		// every listed member is visited: the loop is left only through its bound, and an unknown member is always added
+		{
+			bound, _ := ag.CondEdges(func(v ssa.Value) (bool, bool) {
+				b, ok := v.(*ssa.BinOp)
+				return true, ok && b.Op == token.LSS && w.pathOf(b.Y) == "len(P1)"
+			})
+			var exits []Edge
+			for _, e := range bound {
+				fe, _ := ag.EdgeOf(e.from, false)
+				exits = append(exits, fe)
+			}
+			for _, x := range ag.returns {
+				if len(exits) == 0 || !ag.OnlyVia(exits, x) {
+					okAdd = false
+				}
+			}
+			known, unknown := ag.CondEdges(func(v ssa.Value) (bool, bool) {
+				p := w.pathOf(v)
+				return true, strings.HasPrefix(p, "call:(*cluster.MemberSet).Contains(P0.members,P1[")
+			})
+			_ = known
+			A := w.Nodes(ag, Ev{Name: "a", M: EvCall("Add", msAdd).M, Shallow: true}, false)
+			for _, e := range unknown {
+				rr := ag.reach([]int{e.to}, A, nil)
+				for _, bnd := range bound {
+					if rr[bnd.from] {
+						okAdd = false
+					}
+				}
+				for _, x := range ag.returns {
+					if rr[x] {
+						okAdd = false
+					}
+				}
 			}
 		}
 		r.Check(okAdd, "C20.R3", fname(addM)+":adds-each", "every listed member is added to the provider's member set", w.fnPos(addM), "listed members are not added")
